@@ -511,6 +511,62 @@ Proof.
   intros H. split; [apply (add_op_nodes _ _ _ _ _ _ H)|]. unfold add_op in H. apply wire_up_links in H. exact H.
 Qed.
 
+(* ---- the same command once more (seeded round 2) ----
+   A command is a value: adding `op(args)` a second time resolves its integers again, in the state the
+   first add left.  The integer at position pos (last occurrence) is then output pos of the FIRST new node,
+   not the wire it denoted the first time, and it is rebound to output pos of the second. *)
+Lemma to_wires_nth tr args : forall ws pos a, to_wires tr args = Some ws -> nth_error args pos = Some a ->
+  nth_error ws pos = to_wire tr a.
+Proof.
+  induction args as [|b r IH]; intros ws pos a Hw Hp.
+  - destruct pos; discriminate.
+  - cbn [to_wires] in Hw. destruct (to_wire tr b) as [w|] eqn:Eb; [|discriminate].
+    destruct (to_wires tr r) as [ws'|] eqn:Er; [|discriminate]. inversion Hw; subst ws; clear Hw.
+    destruct pos as [|pos]; cbn in Hp |- *.
+    + inversion Hp; subst b. symmetry; exact Eb.
+    + exact (IH ws' pos a eq_refl Hp).
+Qed.
+
+Theorem repeated_command_chains h tr op m m' args h1 tr1 h2 tr2 :
+  t_add h tr op m args = (h1, tr1, None) ->
+  t_add h1 tr1 op m' args = (h2, tr2, None) ->
+  exists ws2,
+    h_nodes h2 = h_nodes h ++ [(op, m); (op, m')] /\
+    h_links h2 = h_links h1 ++ number_from (new_name h1) 0%N ws2 /\
+    length ws2 = length args /\
+    (forall pos w, nth_error args pos = Some (AW w) -> nth_error ws2 pos = Some w) /\
+    (forall pos i, nth_error args pos = Some (AI i) ->
+       (forall pos', pos < pos' -> nth_error args pos' <> Some (AI i)) ->
+       nth_error ws2 pos = Some (new_name h, N.of_nat pos) /\
+       tracked_wire tr2 i = Some (new_name h1, N.of_nat pos)).
+Proof.
+  intros H1 H2.
+  destruct (add_connects_then_rebinds _ _ _ _ _ _ _ H1) as (ws1 & Hw1 & Ha1 & _).
+  destruct (add_connects_then_rebinds _ _ _ _ _ _ _ H2) as (ws2 & Hw2 & Ha2 & _).
+  destruct (add_records_node_and_links _ _ _ _ _ Ha1) as [Hn1 _].
+  destruct (add_records_node_and_links _ _ _ _ _ Ha2) as [Hn2 Hl2].
+  destruct (rebinding_by_position _ _ _ _ _ _ _ H1) as [Hr1 _].
+  destruct (rebinding_by_position _ _ _ _ _ _ _ H2) as [Hr2 _].
+  exists ws2. split; [|split; [exact Hl2|split; [|split]]].
+  - rewrite Hn2, Hn1, <- app_assoc. reflexivity.
+  - clear -Hw2. revert ws2 Hw2. induction args as [|a r IH]; intros ws2 Hw2; cbn in Hw2.
+    + inversion Hw2; reflexivity.
+    + destruct (to_wire tr1 a); [|discriminate]. destruct (to_wires tr1 r) as [ws'|]; [|discriminate].
+      inversion Hw2; subst ws2. cbn. f_equal. apply IH; reflexivity.
+  - intros pos w Hp. exact (to_wires_nth _ _ _ _ _ Hw2 Hp).
+  - intros pos i Hp Hl. split.
+    + rewrite (to_wires_nth _ _ _ _ _ Hw2 Hp). cbn [to_wire]. exact (Hr1 pos i Hp Hl).
+    + exact (Hr2 pos i Hp Hl).
+Qed.
+
+(* non-vacuity: `c = op(0); add(c); add(c)` chains the two nodes *)
+Example repeated_command_example :
+  let c := Add (mkOp 3 1) [] [AI 0] in
+  run_tracked 1 true [c; c; SetTrackedOutputs] =
+    (mkH 1 [(mkOp 3 1, []); (mkOp 3 1, [])] [((0, 0), (2, 0)); ((2, 0), (3, 0)); ((3, 0), (1, 0))]%N true,
+     [Some (3, 0)]%N, None).
+Proof. vm_compute. reflexivity. Qed.
+
 (* ---- non-vacuity: a width-2 circuit with a hole, a wire argument, metadata and a 1-output op ---- *)
 Example tracked_example :
   let op21 := mkOp 7 1 in let op12 := mkOp 8 2 in let op22 := mkOp 9 2 in
